@@ -86,7 +86,7 @@ def check_term(ctx, c):
             try:
                 time_evolution_for_term(real_term(ops, complex(1.0, im)), 0.3)
                 out.append(("term:imaginary-accepted:%s" % ("neg" if im < 0 else "pos"), "term %s with coefficient %s was accepted (imaginary part silently truncated)" % (ops, complex(1.0, im))))
-            except ValueError:
+            except Exception:  # any exception is a rejection; what must not happen is a circuit coming back
                 pass
         # the same through a sum (the term sits between two ordinary terms), also for purely imaginary coefficients
         from orquestra.quantum.evolution import time_evolution, time_evolution_derivatives
@@ -96,14 +96,14 @@ def check_term(ctx, c):
             try:
                 time_evolution_for_term(real_term(ops, coef), 0.3)
                 out.append(("term:imaginary-accepted:pure" if coef.real == 0 else "term:imaginary-accepted:pos", "term %s with coefficient %s was accepted" % (ops, coef)))
-            except ValueError:
+            except Exception:  # any exception is a rejection; what must not happen is a circuit coming back
                 pass
             ham = PauliSum([PauliTerm("Z0", 0.7), real_term(ops, coef), PauliTerm("X0", -0.2)])
             for nm, fn in (("time_evolution", lambda: time_evolution(ham, 0.3)), ("time_evolution(n_steps=2)", lambda: time_evolution(ham, 0.3, n_steps=2))):
                 try:
                     r_ = fn()
                     out.append(("sum:imaginary-accepted", "%s of %s returned a circuit of %d operations: the term with coefficient %s was not rejected" % (nm, ham, len(r_.operations), coef)))
-                except ValueError:
+                except Exception:
                     pass
         try:
             time_evolution_for_term(real_term(ops, complex(1.0, 0.0)), 0.3)
